@@ -434,6 +434,8 @@ class Exec(ExecBase):
                 st = st.assume(self.type_constraint(v))
             yield v, st
             return
+        if isinstance(base, VPy) and isinstance(base.obj, dict) and not self.is_concrete(idx):
+            base, st = self.dict_to_vdict(base.obj, st)
         if isinstance(base, VPy) and isinstance(base.obj, dict):
             key = self.concrete(idx)
             if key not in base.obj:
@@ -452,6 +454,29 @@ class Exec(ExecBase):
             yield v, st
             return
         raise Unsupported(f"subscript on {base!r} at {where}")
+
+    def dict_to_vdict(self, d: dict, st: State) -> Tuple[VDict, State]:
+        """A module-level dict read with a symbolic key: value map + domain (keys/values must be homogeneous constants)."""
+        from .execbase import CLS_LO, CLS_HI
+        ks, vs = [], []
+        for k, v in d.items():
+            kv, st = self.lift(k, st)
+            vv, st = self.lift(v, st)
+            ks.append(kv)
+            vs.append(vv)
+        kt = self.elem_type_of_values(ks)
+        if all(isinstance(v, VClass) and v.pycls is not None for v in vs):
+            vt: Ty = T.Cls(self.ct.root(vs[0].pycls))
+            st = st.assume(*[z3.And(CLS_LO(z3.IntVal(self.ct.lo[v.pycls])) == self.ct.lo[v.pycls],
+                                    CLS_HI(z3.IntVal(self.ct.lo[v.pycls])) == self.ct.hi[v.pycls]) for v in vs])
+        else:
+            vt = self.elem_type_of_values(vs)
+        term = z3.K(sort_of(kt), to_term(vs[0], vt))
+        dom = z3.K(sort_of(kt), z3.BoolVal(False))
+        for k, v in zip(ks, vs):
+            term = z3.Store(term, to_term(k, kt), to_term(v, vt))
+            dom = z3.Store(dom, to_term(k, kt), z3.BoolVal(True))
+        return VDict(kt, vt, term, dom), st
 
     def slice_v(self, base: V, sl: ast.Slice, st: State, node: ast.AST) -> Iterator[Tuple[V, State]]:
         if isinstance(base, VTuple):
@@ -582,6 +607,27 @@ class Exec(ExecBase):
             st = st.assume(self.isinstance_v(obj, [definer]).term)
             v, st2 = self.read_field(VRef(obj.term, definer, self), definer, name, st)
             yield v, st2
+            return
+        # attribute defined (as property / method / field) in several subclasses: dispatch on the dynamic class
+        definers = []
+        for d in self.ct.subclasses(obj.cls):
+            if d is obj.cls:
+                continue
+            if name in vars(d) or name in {a for a, k in init_assigned_attrs(d).items() if k is d}:
+                if not any(self.ct.is_sub(d, e) and e is not d for e in definers):
+                    definers = [e for e in definers if not self.ct.is_sub(e, d)] + [d]
+        if definers:
+            rest = []
+            for d in definers:
+                g = self.isinstance_v(obj, [d]).term
+                rest.append(g)
+                if not self.feasible_with(st, g):
+                    continue
+                st_d = st.assume(g).decide(f"dyn.{name}.{d.__name__}")
+                yield from self.getattr_ref(VRef(obj.term, d, self), name, st_d)
+            none = z3.Not(z3.Or(rest))
+            if self.feasible_with(st, none):
+                self.oblige(st.assume(none), "safe", f"attr.{name}", z3.BoolVal(False), tags=["C17"])
             return
         raise Unsupported(f"unknown attribute {obj.cls.__name__}.{name}")
 
